@@ -97,7 +97,7 @@ func (e *Engine) VerifyFunction(fn *ssa.Function) (rep *FuncReport) {
 	if ct != nil {
 		ct.Used = true
 	}
-	st := &State{cells: map[*ssa.Alloc]Val{}, heaps: map[string]string{}, globals: map[*ssa.Global]Val{}}
+	st := &State{iters: map[*ssa.Range]string{}, cells: map[*ssa.Alloc]Val{}, heaps: map[string]string{}, globals: map[*ssa.Global]Val{}}
 	r.nxt0 = r.fresh("nxt0", "Int")
 	r.assume("true", fmt.Sprintf("(< 0 %s)", r.nxt0))
 	st.nxt = r.nxt0
@@ -198,7 +198,7 @@ func (e *Engine) VerifyLemma(ct *Contract) (rep *FuncReport) {
 		}
 	}()
 	ct.Used = true
-	st := &State{cells: map[*ssa.Alloc]Val{}, heaps: map[string]string{}, globals: map[*ssa.Global]Val{}}
+	st := &State{iters: map[*ssa.Range]string{}, cells: map[*ssa.Alloc]Val{}, heaps: map[string]string{}, globals: map[*ssa.Global]Val{}}
 	r.nxt0 = r.fresh("nxt0", "Int")
 	st.nxt = r.nxt0
 	r.entry = st
